@@ -8,7 +8,8 @@ MODULE = "Nice.Props.C04Finish"   # re-exports Nice.Props.C04 and adds the finis
 THEOREMS = [f"Nice.Props.C04.{t}" for t in (
     "C04_success_needs_integrity", "C04_key_provenance", "C04_success_needs_fingerprint",
     "C04_response_needs_outstanding", "C04_response_at_most_once", "crc32_table_correct",
-    "validate_stages", "validate_frame", "C04_finish_then_validate_partial", "C04_unmatched_is_response")]
+    "validate_stages", "validate_frame", "C04_finish_then_validate_partial", "C04_unmatched_is_response",
+    "C04_default_validater_exact_name", "C04_default_validater_unknown_name")]
 # C04_finish_then_validate is proved in PARTIAL form (short-term credentials, no fingerprint: the MAC that
 # finish writes passes the M-I stage of validate, all four compatibility modes); the composition with the
 # other stages, LONG_TERM and FINGERPRINT variants are decided by the tie: the `valm` right after every
